@@ -148,7 +148,8 @@ func (ex *Exec) global(g *ssa.Global) *Obj {
 	ex.globals[g] = o
 	ex.lazyInit(g)
 	if ex.frozenAll && g.Pkg != nil && strings.HasPrefix(g.Pkg.Pkg.Path(), "github.com/google/go-tdx-guest/") && !strings.Contains(g.Pkg.Pkg.Path(), "/zzvp") {
-		o.Frozen = true
+		o.Frozen = ex.syncDepth == 0
+		ex.softFrozen = append(ex.softFrozen, o)
 	}
 	return o
 }
@@ -370,6 +371,41 @@ func (ex *Exec) checkWritable(frozen bool, id int, what string) {
 	}
 	if n := len(ex.mergeMarks); n > 0 && id <= ex.mergeMarks[n-1] {
 		panic(mergeImpure{what: what})
+	}
+}
+
+// syncEnter / syncLeave bracket a synchronised region (sync.Once.Do, sync.Mutex.Lock .. Unlock):
+// package-level memory frozen by FreezeGlobals may be written there - that is what the
+// synchronisation is for. Memory frozen by vp.Freeze (quote, input, options) stays frozen.
+func (ex *Exec) syncEnter() {
+	ex.syncDepth++
+	if ex.syncDepth == 1 {
+		ex.setSoftFrozen(false)
+	}
+}
+
+func (ex *Exec) syncLeave() {
+	if ex.syncDepth == 0 {
+		return
+	}
+	ex.syncDepth--
+	if ex.syncDepth == 0 {
+		ex.setSoftFrozen(true)
+	}
+}
+
+func (ex *Exec) setSoftFrozen(v bool) {
+	for _, x := range ex.softFrozen {
+		switch r := x.(type) {
+		case *Obj:
+			r.Frozen = v
+		case *ByteObj:
+			r.Frozen = v
+		case *Vec:
+			r.Frozen = v
+		case *Map:
+			r.Frozen = v
+		}
 	}
 }
 
